@@ -486,3 +486,32 @@ package fsutil
 //@   property C01
 //@   modifies global rand
 //@   effects MuLock MuUnlock
+
+// ---------------------------------------------------------------------------
+// diff_containerd.go: the merge loop of the two-way walk diff
+// ---------------------------------------------------------------------------
+
+// entries arriving from the walkers carry a stat (getWalkerFn and the receive
+// loop both construct them that way); channel semantics are not modelled
+//@ func nextPath
+//@   property C01 C02 C05
+//@   trusted channel receive: the walkers only send entries with a non-nil stat
+//@   ensures result0 != nil ==> result0.stat != nil
+
+// step obligations of the merge loop (no induction over the two sequences):
+//  - the "below an already removed directory" prefix always ends in the separator,
+//    so only entries strictly below the removed directory are suppressed
+//  - a change is forwarded for a common path only if the identity differs
+//  - what is forwarded is the source entry's stat as sent, never the filtered copy
+//@ func doubleWalkDiff$3
+//@   property C01 C02 C05
+//@   requires differ == DiffNone || differ == DiffMetadata
+//@   requires len(rmdir) == 0 && f1 == nil && f2 == nil
+//@   modifies heap
+//@   effects *
+//@   loop 0 invariant rmdir_sep: len(rmdir) == 0 || rmdir[len(rmdir)-1] == '/'
+//@   loop 0 invariant differ: differ == DiffNone || differ == DiffMetadata
+//@   loop 0 invariant heads: (f1 == nil || f1.stat != nil) && (f2 == nil || f2.stat != nil)
+//@   at call doubleWalkDiff.changeFn: stat_as_sent: k != ChangeKindDelete ==> f != nil && f != f2copy.stat
+//@   at call doubleWalkDiff.changeFn: only_if_changed: k == ChangeKindModify ==> !same
+//@   at call doubleWalkDiff.changeFn: path_of_source: k != ChangeKindDelete ==> p == f2copy.path
